@@ -188,6 +188,8 @@ def _tiling_work(chunk):
                     if i < 0 or d[pos:i].strip():
                         msg = f"raw text {raw!r} does not follow the previous one (only white space may lie between): {d[pos:i if i >= 0 else None]!r} is lost or the order is wrong"
                         break
+                    if not isinstance(line, int):
+                        raise Unsupported(f"a start line the interpreter cannot compute: {line!r}")
                     if line != d.count("\n", 0, i):
                         msg = f"block {raw[:20]!r} reports start_line {line}, its raw text starts on line {d.count(chr(10), 0, i)}"
                         break
@@ -234,7 +236,8 @@ def _context_work(chunk):
             alone1, alone2 = desc(call_func(it, ps, D1)), desc(call_func(it, ps, D2))
         except (Raised, Unsupported, LoopBound) as e:
             return [(x, "undecided", f"the documents alone: {e}") for x in docs]
-        shift = lambda ds, n: [(c, k, r, (l + n if isinstance(l, int) else l), (ct[0], [(fk, fv, fl + n) for fk, fv, fl in ct[1]]) if c == "Entry" or isinstance(ct, tuple) and len(ct) == 2 and isinstance(ct[1], list) else ct)
+        sh = lambda l, n: l + n if isinstance(l, int) and not isinstance(l, bool) else l
+        shift = lambda ds, n: [(c, k, r, sh(l, n), (ct[0], [(fk, fv, sh(fl, n)) for fk, fv, fl in ct[1]]) if c == "Entry" or isinstance(ct, tuple) and len(ct) == 2 and isinstance(ct[1], list) else ct)
                                for c, k, r, l, ct in ds]
         for x in docs:
             text = D1 + x + "\n" + D2
